@@ -28,6 +28,9 @@ type PropConfig struct {
 	Corpus     bool
 	Also       string   // the contracts of this other property are verified in this run as well
 	CorpusOnly []string // quick tier: restrict the corpus to these directories (empty = all)
+	// Probes: obligation names with which the replay oracle is run in the thorough tier even though nothing failed
+	// (a bounded search on the real code, reported as bounded and never counted as proof; a discrepancy is a violation).
+	Probes []string
 }
 
 type Run struct {
@@ -291,7 +294,22 @@ func (r *Run) report(updateLock, verbose, noEvidence bool) int {
 		for _, n := range loadLock(lockPath)[r.cfg.ID+"#dead-exits"] {
 			knownDead[n] = true
 		}
+		// only for functions that exist on the reference tree: a function that is new (say a new test template) has
+		// no reference to be compared with, and e.g. the error exit behind JoinStringErrs(<plain string>) is dead by design
+		refFuncs := map[string]bool{}
+		for _, n := range loadLock(lockPath)[r.cfg.ID] {
+			if i := strings.Index(n, "#"); i > 0 {
+				refFuncs[n[:i]] = true
+			}
+		}
 		for _, n := range deadNames {
+			fn := n
+			if i := strings.Index(fn, "#"); i > 0 {
+				fn = fn[:i]
+			}
+			if !refFuncs[fn] {
+				continue
+			}
 			if !knownDead[lockStem(n)] && !knownDead[n] {
 				failures = append(failures, &Failure{Name: n, Reason: "vacuity guard: this function exit is unreachable under the assumed contracts although it was reachable on the reference tree (contradictory assumptions would make every obligation behind it pass)"})
 			}
@@ -305,6 +323,22 @@ func (r *Run) report(updateLock, verbose, noEvidence bool) int {
 		for _, n := range lock[r.cfg.ID] {
 			if !names[n] {
 				failures = append(failures, &Failure{Name: n, Reason: "obligation discharged on the reference tree is no longer generated (function, contract clause, loop or call site disappeared)"})
+			}
+		}
+	}
+	// thorough tier: the bounded oracles on the real code, whatever the verifier said
+	if (r.tier.Name == "thorough" || os.Getenv("GOVC_PROBES") != "") && r.cfg.Replay != nil {
+		for _, p := range r.cfg.Probes {
+			rr := r.cfg.Replay(r, &Obligation{Name: p, Verdict: "probe", Note: "oracle probe"})
+			if rr == nil {
+				continue
+			}
+			fmt.Printf("oracle probe %s (bounded, not counted as proof): %s\n", p, firstLines(rr.Detail, 1))
+			r.bounded = append(r.bounded, map[string]interface{}{"oracle_probe": p, "explored": rr.Input, "result": rr.Detail, "discrepancy_found": rr.Confirmed})
+			if rr.Confirmed {
+				failures = append(failures, &Failure{Name: "oracle:" + p, Reason: "bounded oracle on the real code found a discrepancy: " + rr.Detail, Replay: rr})
+			} else if !strings.Contains(rr.Detail, "REPLAY-NOT-REPRODUCED") || strings.Contains(rr.Detail, "harness error") || strings.Contains(rr.Detail, "did not run") {
+				failures = append(failures, &Failure{Name: "oracle:" + p, Reason: "the bounded oracle did not run: " + firstLines(rr.Detail, 4)})
 			}
 		}
 	}
@@ -515,7 +549,7 @@ func (r *Run) fail(viol []*Failure, noEvidence bool, cov map[string]interface{})
 		viol = viol[:maxReported]
 	}
 	for _, f := range viol {
-		var rr *ReplayResult
+		rr := f.Replay
 		if f.Obl != nil && r.cfg.Replay != nil {
 			rr = r.cfg.Replay(r, f.Obl)
 		}
